@@ -41,7 +41,7 @@ impl Monitor for C03 {
     }
     fn run(&self, ctx: &mut Ctx) {
         let sz = match ctx.tier {
-            Tier::Quick => Sizes { w1_full: 2, w1_class: 4, w2: 3, w3: 60_000, w4: 100_000, bombs: true },
+            Tier::Quick => Sizes { w1_full: 3, w1_class: 4, w2: 3, w3: 60_000, w4: 100_000, bombs: true },
             Tier::Thorough => Sizes { w1_full: 3, w1_class: 5, w2: 4, w3: 600_000, w4: 1_500_000, bombs: true },
         };
         for ev in ALL_EV {
